@@ -13,7 +13,7 @@ Viol(r, j) ==
     \cup Chk("C18-value-the-wire-format-cannot-hold-was-accepted", (~Accept(r) /\ ~Free(r)) => j.outcome # "accepted")
     \cup (IF j.outcome # "accepted" THEN {}
           ELSE UNION {Chk("C18-accepted-definition-raises-when-encoded", j.enc[s] # "raised")
-                      \cup Chk("C18-accepted-definition-produces-no-update", j.enc[s] # "nothing")
+                      \cup Chk("C18-accepted-definition-produces-no-update", (j.enc[s] = "nothing") => (JU(j.u).field \in Lengths /\ Free(JU(j.u))))
                       \cup Chk("C18-value-not-carried-as-written", Accept(r) /\ ~Free(r) /\ j.enc[s] = "ok" => Contains(j.wire[s], Frag(r, s))) : s \in Sessions})
 VARIABLES l, bad
 JInit == l = 1 /\ bad = <<>>
